@@ -272,6 +272,18 @@ def run(chk):
         sp = [rand_spec(rng, N, dt, start) for _ in range(nops)]
         if nops >= 3:   # keep the array small
             sp = [s if not isinstance(s, slice) else rng.randint(0, N) for s in sp[:-1]] + [sp[-1]]
+        if i in (2, 3):
+            # every run: four operators whose first three time specifications are lists in descending / mixed order over the
+            # whole grid: every ordering pattern of (t1, t2, t3) occurs, incl. t1 > t2 <= t3
+            N = max(N, 2)
+            p = rand_intpt(rng, d, N, maxbond=2, lo=-1, hi=1, real=False)
+            p.dt = dt
+            nops = 4
+            ops = [gint(rng, (d, d), -1, 1) for _ in range(nops)]
+            orders = [rng.choice(["left", "right"]) for _ in range(nops)]
+            grid = list(range(N + 1))
+            sp = [sorted(rng.sample(grid, min(len(grid), 2)), reverse=True), sorted(rng.sample(grid, min(len(grid), 2))),
+                  sorted(rng.sample(grid, min(len(grid), 2)), reverse=(i == 3)), slice(None)]
         props = [(gint(rng, (d2, d2), -1, 1), gint(rng, (d2, d2), -1, 1)) for _ in range(N)]
         rho0 = gint(rng, (d, d), -1, 1)
         sysm = InjSystem(d, props, start=start)     # time-dependent: the propagators belong to this start time only
